@@ -6,6 +6,8 @@ import (
 	"bytes"
 	"encoding/json"
 	"fmt"
+	"sort"
+	"sync"
 	"sync/atomic"
 	"time"
 
@@ -43,6 +45,7 @@ func payloadMask(certs [][]byte) []bool {
 type corruption struct {
 	how string
 	val []byte
+	at  string // for bit flips: byte offset and bit
 }
 
 // sweepRows: for a log holding one entry, every damaged version of the stored
@@ -54,6 +57,8 @@ func sweepRows(r *rep.R, th bool) {
 		names = append(names, "P0", "L2", "PP", "L3", "P2")
 	}
 	var served, refused, total atomic.Int64
+	var hmu sync.Mutex
+	var hdr []string // flips in the DER headers of the row that are nevertheless served
 	for _, n := range names {
 		s := subs[S(n)]
 		row := s.storedChain()
@@ -62,17 +67,17 @@ func sweepRows(r *rep.R, th bool) {
 			panic("mask")
 		}
 		var cs []corruption
-		cs = append(cs, corruption{"nil", nil})
+		cs = append(cs, corruption{how: "nil"})
 		for l := 0; l < len(row); l++ {
-			cs = append(cs, corruption{"truncated", clone(row[:l])})
+			cs = append(cs, corruption{how: "truncated", val: clone(row[:l])})
 		}
 		for _, b := range []byte{0x00, 0x30, 0x04} {
-			cs = append(cs, corruption{"trailing", append(clone(row), b)})
+			cs = append(cs, corruption{how: "trailing", val: append(clone(row), b)})
 		}
 		for _, tag := range []byte{0x31, 0x10, 0x04, 0xa0, 0x70} {
 			c := clone(row)
 			c[0] = tag
-			cs = append(cs, corruption{"wrongtag", c})
+			cs = append(cs, corruption{how: "wrongtag", val: c})
 		}
 		for i := 0; i < len(row)*8; i++ {
 			c := clone(row)
@@ -81,12 +86,12 @@ func sweepRows(r *rep.R, th bool) {
 			if mask[i/8] {
 				how = "bitflip-certificate-bytes"
 			}
-			cs = append(cs, corruption{how, c})
+			cs = append(cs, corruption{how, c, fmt.Sprintf("byte %d bit %d (reference byte %02x)", i/8, i%8, row[i/8])})
 		}
 		// another submission's row: valid, but not what was hashed
 		for _, o := range []string{"L4", "L0", "RS"} {
 			if other := subs[S(o)].storedChain(); !bytes.Equal(other, row) {
-				cs = append(cs, corruption{"other-row", other})
+				cs = append(cs, corruption{how: "other-row", val: other})
 			}
 		}
 		const chunk = 256
@@ -116,6 +121,11 @@ func sweepRows(r *rep.R, th bool) {
 					r.Eval(1)
 					total.Add(1)
 					if rq.Status == 200 {
+						if cs[k].how == "bitflip-der-header" && rq.Kind == "ge" {
+							hmu.Lock()
+							hdr = append(hdr, n+": "+cs[k].at)
+							hmu.Unlock()
+						}
 						served.Add(1)
 					} else {
 						refused.Add(1)
@@ -129,6 +139,8 @@ func sweepRows(r *rep.R, th bool) {
 	if r.Expired() {
 		r.Capped("deadline reached in the stored-row sweep")
 	}
+	sort.Strings(hdr)
+	r.Set("sweep_header_flips_served_200", hdr)
 	r.Set("sweep_requests", total.Load())
 	r.Set("sweep_damaged_rows_refused", refused.Load())
 	r.Set("sweep_damaged_rows_served_200", served.Load())
